@@ -49,10 +49,6 @@ m('c01-filter-none-predicate', ['C01'], 'streamz/core.py',
   "        if self.predicate(x, *self.args, **self.kwargs):\n            return self._emit(x, metadata=metadata)\n        elif isinstance(x, tuple) and len(x) == 3:\n            return self._emit(x, metadata=metadata)",
   'filter lets 3-tuples through')
 # ---- C02 -----------------------------------------------------------------
-m('c02-buffer-no-await', ['C02', 'C03', 'C04'], 'streamz/core.py',
-  "            x, metadata = yield self.queue.get()\n            yield self._emit(x, metadata=metadata)\n            self._release_refs(metadata)\n\n\n@Stream.register_api()\nclass zip(Stream):",
-  "            x, metadata = yield self.queue.get()\n            self._emit(x, metadata=metadata)\n            self._release_refs(metadata)\n\n\n@Stream.register_api()\nclass zip(Stream):",
-  'buffer forwarder does not wait for downstream')
 m('c02-timed-window-swap-after-emit', ['C02', 'C08'], 'streamz/core.py',
   "            L, self._buffer = self._buffer, []\n            metadata, self.metadata_buffer = self.metadata_buffer, []\n            m = [m for ml in metadata for m in ml]\n            self.last = gen.convert_yielded(self._emit(L, m))\n            self._release_refs(m)\n            yield self.last",
   "            L = self._buffer\n            metadata = self.metadata_buffer\n            m = [m for ml in metadata for m in ml]\n            self.last = gen.convert_yielded(self._emit(list(L), m))\n            self._release_refs(m)\n            yield self.last\n            self._buffer, self.metadata_buffer = [], []",
@@ -255,10 +251,6 @@ m('c18-start-no-guard', ['C18'], 'streamz/sources.py',
   "            if not getattr(self, '_running', False):\n                self._running = True\n                self.loop.add_callback(self._run_once)",
   "            self._running = True\n            self.loop.add_callback(self._run_once)",
   'restart while the old loop is suspended starts a second loop')
-m('c18-start-started', ['C18'], 'streamz/sources.py',
-  "        if self.stopped:\n            self.stopped = False\n            self.started = True\n            if not",
-  "        if self.stopped or self.started:\n            self.stopped = False\n            self.started = True\n            if not",
-  'start on a started source')
 m('c18-periodic-no-recheck', ['C18'], 'streamz/sources.py',
   "        while not self.stopped:\n            await self._run()",
   "        while True:\n            await self._run()\n            if self.stopped:\n                break",
@@ -308,7 +300,7 @@ m('c12-rolling-ignores-start', ['C12'], 'streamz/dataframe/core.py',
   'a resumed rolling aggregation starts without its history')
 m('c12-ewm-hidden-flag', ['C12'], 'streamz/dataframe/aggregations.py',
   "        result, old_wt, is_first = acc\n        for i in range(int(is_first), len(new)):",
-  "        result, old_wt, is_first = acc\n        is_first = not getattr(self, '_started', False)\n        self._started = self._started if not len(new) and not is_first else True\n        for i in range(int(is_first), len(new)):",
+  "        result, old_wt, is_first = acc\n        is_first = not getattr(self, '_started', False)\n        if len(new):\n            self._started = True\n        for i in range(int(is_first), len(new)):",
   'ewm keeps "first batch seen" on the aggregation object instead of in the exposed state')
 m('c12-groupby-sum-ignores-start', ['C12'], 'streamz/dataframe/core.py',
   "        return self._accumulate(aggregations.GroupbySum, start=start)",
